@@ -22,7 +22,7 @@
                                    of a unit compiled earlier *)
 From Coq Require Import List ZArith Bool Lia.
 From RG.Base Require Import Outcome GoInt GoSlice.
-From RG.Quasigo Require Import Source Bytecode Compile VM Sem Guards Link VMLemmas CompileLemmas FunCorrect FunPanic Correct Encodable.
+From RG.Quasigo Require Import Source Bytecode Compile VM Sem Guards Link VMLemmas CompileLemmas FunCorrect FunPanic Correct Encodable PanicKind.
 Import ListNotations.
 Local Open Scope Z_scope.
 
@@ -367,7 +367,7 @@ Theorem later_units_preserve_meaning (e : env) (us : list nunit) :
     (forall r, call_sem (nat_sig cfg) nat_fun (ev_srcs e) fuel id args = EOk r ->
        exists fuel' cr, call_fun cfg (map (vfunc_bytes cfg) (ev_funcs e')) nat_fun fuel' (vfunc_bytes cfg cf) args = RDone cr /\
                         result_matches r cr) /\
-    (forall w, call_sem (nat_sig cfg) nat_fun (ev_srcs e) fuel id args = EPanic w -> w <> PIndex ->
+    (forall w, call_sem (nat_sig cfg) nat_fun (ev_srcs e) fuel id args = EPanic w ->
        exists fuel', call_fun cfg (map (vfunc_bytes cfg) (ev_funcs e')) nat_fun fuel' (vfunc_bytes cfg cf) args = RPanic w).
 Proof.
   intros Hinv Hguard e' fuel id args cf Hcf.
@@ -378,7 +378,7 @@ Proof.
   rewrite Hf, map_app. split.
   - intros r Hr. destruct (Hok r Hr) as (fuel' & cr & Hrun & Hrel). exists fuel', cr. split; [|exact Hrel].
     unfold call_fun in *. destruct (push_args args) as [o n]. apply run_table_extension; [exact Hrun|discriminate].
-  - intros w Hw Hne. destruct (Hpanic w Hw) as (fuel' & Hrun). exists fuel'.
+  - intros w Hw. pose proof (call_sem_panic_not_index _ _ _ _ _ _ _ Hw) as Hne. destruct (Hpanic w Hw) as (fuel' & Hrun). exists fuel'.
     unfold call_fun in *. destruct (push_args args) as [o n]. apply run_table_extension; [exact Hrun|congruence].
 Qed.
 
